@@ -4,7 +4,7 @@ Proof: GardenVerif.Props.C02 — the VALUE-STACK DISCIPLINE of the evaluator mac
 machine states (pending entries never underflow the value stack, typed slot for a running `for`, binding
 blocks ≥ 1 + block-owning entries, loop context for break/continue) with `step_no_panic` and
 `step_preserves_WF`, for programs satisfying the decidable predicate `okProg` (the `value_is_used` flags as
-the parser assigns them; no break/continue in operand position, out of a used loop, or outside a loop).
+the parser assigns them; no break/continue in operand position or outside a loop).
 Two defects were found while proving the invariant (parenthesised statement leaves a value: `for x in [1,2] { (5) }`
 panicked at eval.rs:1746; a used loop left by `break` pushed no value: `(while True { break }, while True { break })`
 panicked at eval.rs:6766); both are fixed in /repo HEAD (acc2a71, 7c0ed2e) and are seeds here.
@@ -93,7 +93,7 @@ def ok_e(b, e):
     if kind in ("while", "for"):
         cond = rest[0] if kind == "while" else rest[1]
         body = rest[1] if kind == "while" else rest[2]
-        return ok_items([cond]) or ok_block(not u, False, body)
+        return ok_items([cond]) or ok_block(True, False, body)
     if kind == "match":
         r = ok_items([rest[0]])
         for c in rest[1:]:
@@ -102,7 +102,7 @@ def ok_e(b, e):
     if kind == "return":
         return None if rest[0] == "none" else ok_items([rest[0]])
     if kind in ("break", "continue"):
-        return None if (b and not u) else "%s outside a statement position of an unused loop body (b=%s used=%s)" % (kind, b, u)
+        return None if (b and not u) else "%s outside a statement position of a loop body (b=%s used=%s)" % (kind, b, u)
     if kind in ("list", "tuple"):
         return ok_items(rest)
     if kind == "call":
